@@ -450,10 +450,17 @@ def replay(c):
             if verdict != 'sat':
                 return False, 'model has no bad schedule any more'
             line, occ = preemption_point(trace)
-            spec = dict(w['spec'], line=line, occurrence=occ)
-            r = replay_spec(spec)
-            bad = r['preempted'] and (r['A'] != r['sequential'] or r['B'] != r['sequential'])
-            return bad, json.dumps(r)[:400]
+            # the solver may return another bad schedule of the same site than in the run that produced the witness: the preemption
+            # recorded in the witness is tried first, then the recomputed one, then the other early occurrences of that line
+            tried, r = [], None
+            for ln, oc in [(w['spec'].get('line', line), w['spec'].get('occurrence', occ)), (line, occ), (line, 1), (line, 2), (line, 3)]:
+                if (ln, oc) in tried:
+                    continue
+                tried.append((ln, oc))
+                r = replay_spec(dict(w['spec'], line=ln, occurrence=oc))
+                if r['preempted'] and (r['A'] != r['sequential'] or r['B'] != r['sequential']):
+                    return True, json.dumps(r)[:400]
+            return False, json.dumps(r)[:400]
     return False, 'site not found'
 
 
